@@ -32,11 +32,17 @@ def _real_env():
     types = {"A": nn.Conv2d, "B": nn.Linear}
     constr = {"U": None, "dw": conv_dw_constraint, "k3": conv_3_constraint, "usr": usr_constraint}
 
-    def layer_spec(sat):
-        # a layer description satisfying exactly the constraints in `sat`
-        dw = "dw" in sat
-        return {"in_channels": 6, "out_channels": 6 if dw else 8, "groups": 6 if dw else 1,
-                "kernel_size": (3, 3) if "k3" in sat else (5, 3), "usr_flag": "usr" in sat}
+    def layer_specs(sat):
+        """Several layer descriptions that satisfy exactly the constraints in `sat` by the DOCUMENTED meaning of the
+        built-in constraints (depthwise: in = out = groups; 3x3: all kernel dims 3) - including the edge cases
+        in_channels = groups != out_channels (1-channel input, grouped convs)."""
+        if "dw" in sat:
+            chans = [(6, 6, 6), (1, 1, 1), (16, 16, 16)]
+        else:
+            chans = [(6, 8, 1), (1, 16, 1), (4, 8, 4), (8, 4, 4), (3, 3, 1), (6, 6, 2)]
+        kers = [(3, 3)] if "k3" in sat else [(5, 3), (3, 5), (1, 1)]
+        return [{"in_channels": ci, "out_channels": co, "groups": g, "kernel_size": k, "usr_flag": "usr" in sat}
+                for (ci, co, g) in chans for k in kers]
 
     def execute(dflt, events):
         """events: list of ('reg', ty, p) / ('get', ty, sat). Returns the trace."""
@@ -53,12 +59,9 @@ def _real_env():
                 cs[(types[ty], constr[p])] = fn
                 out.append({"a": "reg", "ty": ty, "p": p})
             else:
-                _, ty, sat = ev
-                sp = layer_spec(sat)
-                # sanity of the harness itself: the description satisfies exactly `sat`
-                for c in CONSTR:
-                    if bool(constr[c](sp)) != (c in sat):
-                        raise tlc.MachineryError("layer_spec does not realise the requested constraint set")
+                _, ty, sat = ev[:3]
+                cands = layer_specs(sat)
+                sp = cands[ev[3] % len(cands)] if len(ev) > 3 else cands[0]
                 try:
                     f = cs[(types[ty], sp)]
                     if id(f) in fns:
@@ -77,7 +80,9 @@ def _real_env():
                         res = ["unknownfn"]
                 except KeyError as e:
                     res = ["conflict"] if "conflict" in str(e).lower() else ["keyerror", str(e)[:40]]
-                out.append({"a": "get", "ty": ty, "sat": sorted(sat), "res": res})
+                out.append({"a": "get", "ty": ty, "res": res,
+                            "d": {"cin": sp["in_channels"], "cout": sp["out_channels"], "groups": sp["groups"],
+                                  "k": list(sp["kernel_size"]), "usr": bool(sp["usr_flag"])}})
         return {"dflt": dflt, "ev": out}
 
     return execute
@@ -108,25 +113,34 @@ def _builtin_traces():
                 continue
             ev = [{"a": "reg", "ty": "A", "p": cname[c]} for c, _ in entries]
             fn_of = {id(f): cname[c] for c, f in entries}
-            for r in range(3):
-                for s in itertools.combinations(["dw", "k3"], r):
-                    nd = 1 if lt is nn.Conv1d else 2
-                    dw = "dw" in s
-                    sp = {"in_channels": 6, "out_channels": 6 if dw else 8, "groups": 6 if dw else 1,
-                          "kernel_size": ((3,) if "k3" in s else (5,)) * nd}
-                    try:
-                        f = cs[(lt, sp)]
-                        if id(f) in fn_of:
-                            res = ["fn", fn_of[id(f)]]
-                        elif f is cost_spec_zero_fn:
-                            res = ["zero"]
-                        elif f is cost_spec_fail_fn:
-                            res = ["fail"]
-                        else:
-                            res = ["unknownfn"]
-                    except KeyError as e:
-                        res = ["conflict"] if "conflict" in str(e).lower() else ["keyerror"]
-                    ev.append({"a": "get", "ty": "A", "sat": sorted(s), "res": res})
+            # real torch layers, incl. the edge cases in_channels = groups != out_channels
+            if lt is nn.Linear:
+                layers = [nn.Linear(6, 8), nn.Linear(3, 1), nn.Linear(1, 4)]
+            else:
+                nd = 1 if lt is nn.Conv1d else 2
+                layers = [lt(ci, co, k, groups=g) for (ci, co, g) in
+                          [(6, 8, 1), (6, 6, 6), (1, 16, 1), (4, 8, 4), (8, 4, 4), (1, 1, 1), (6, 6, 2)]
+                          for k in ([3, 5, 1] if nd == 1 else [3, 5, (3, 5), 1])]
+            for ly in layers:
+                sp = vars(ly)
+                try:
+                    f = cs[(lt, sp)]
+                    if id(f) in fn_of:
+                        res = ["fn", fn_of[id(f)]]
+                    elif f is cost_spec_zero_fn:
+                        res = ["zero"]
+                    elif f is cost_spec_fail_fn:
+                        res = ["fail"]
+                    else:
+                        res = ["unknownfn"]
+                except KeyError as e:
+                    res = ["conflict"] if "conflict" in str(e).lower() else ["keyerror"]
+                if lt is nn.Linear:
+                    d = {"cin": ly.in_features, "cout": ly.out_features, "groups": 0, "k": [1], "usr": False}
+                else:
+                    d = {"cin": ly.in_channels, "cout": ly.out_channels, "groups": ly.groups,
+                         "k": [int(v) for v in ly.kernel_size], "usr": False}
+                ev.append({"a": "get", "ty": "A", "res": res, "d": d})
             traces.append({"dflt": dflt, "ev": ev})
             scen.append({"kind": "builtin", "spec": name, "layer": lt.__name__, "n_reg": len(entries)})
     return traces, scen
@@ -138,7 +152,7 @@ def run(tier: str, seed: int, replay=None) -> int:
               "CostLookupMC (sequences without repetition over 2 layer types x {U,dw,k3,usr}), each queried with all "
               "2x8 layer descriptions; plus seeded random interleavings of registrations and lookups and every built-in "
               "CostSpec. Non-trivial = at least two registrations of the queried history.")
-    R.assumptions = ["a layer description is abstracted to the set of constraints it satisfies (checked per query by the harness)",
+    R.assumptions = ["which constraints a logged layer description (cin, cout, groups, kernel) satisfies is decided by TLC (CostLookup!RefSat: depthwise = in = out = groups, 3x3 = all kernel dims 3), not by the harness",
                      "re-registering the same (type, constraint) pair twice is outside the property's quantifier and not generated"]
     execute = _real_env()
 
@@ -162,7 +176,9 @@ def run(tier: str, seed: int, replay=None) -> int:
     # 2. spec -> code: replay every reachable history on the real CostSpec
     traces, scen = [], []
     for st in nodes.values():
-        events = [("reg", ty, p) for ty, p in st["reg"]] + [("get", ty, sat) for ty, sat in ALL_QUERIES]
+        h = len(traces)
+        events = [("reg", ty, p) for ty, p in st["reg"]] + \
+                 [("get", ty, sat, h + j) for ty, sat in ALL_QUERIES for j in (0, 7)]
         traces.append(execute(st["dflt"], events))
         scen.append({"kind": "state", "dflt": st["dflt"], "events": [list(e) for e in events], "n_reg": len(st["reg"])})
     R.sample({"scenario": {"dflt": scen[-1]["dflt"], "registrations": [e for e in scen[-1]["events"] if e[0] == "reg"]},
@@ -180,7 +196,7 @@ def run(tier: str, seed: int, replay=None) -> int:
             events.append(("reg",) + r)
             for _ in range(rng.randint(0, 3)):
                 ty, sat = rng.choice(ALL_QUERIES)
-                events.append(("get", ty, sat))
+                events.append(("get", ty, sat, rng.randrange(1000)))
         dflt = rng.choice(["zero", "fail"])
         traces.append(execute(dflt, events))
         scen.append({"kind": "random", "dflt": dflt, "events": [list(e) for e in events], "n_reg": k})
